@@ -13,7 +13,8 @@
  *   C <k> sched seed=<s> n=<n> pool=<p> max=<m> dur_ms=<d> mut=<t> bound_ms=<b> [script=wakeup]    one real-time scenario
  *         script=wakeup: scripted liveness probe (n=2, max=1, no mutator threads): while A's command runs A is paused (leaves
  *         the pending set) and B is made due; when A's helper finishes the freed slot must wake the scheduler for B at once
- *         (F-C04a); repeated 12 times, the driver takes the median of the delays
+ *         (F-C04a); repeated 12 times, the driver takes the median of the delays.  script=wakeup_async: the same with A's command
+ *         being asynchronous (PluginCheckTask-like): the slot is freed by the finished process, not by the helper (F-C04b)
  *   K <cid> <enabled 0|1> <check_us> <retry_us> <async>  declaration (enabled = active checks on and period open; async = the
  *                                                        command behaves like PluginCheckTask: spawns and returns)
  *   E pick <cid> <forced>   | <inIdle> <inPending> <key_us> <now_us> <counter>      scheduler dispatched <cid>
@@ -268,8 +269,12 @@ static void Deliver(const Checkable::Ptr& checkable, const CheckResult::Ptr& cr,
 	double nb = Utility::GetTime();
 	cr->SetExecutionEnd(nb);
 	cr->SetScheduleEnd(nb);
-	checkable->ProcessCheckResult(cr);
+	auto res = checkable->ProcessCheckResult(cr);
 	double na = Utility::GetTime();
+	/* a checkable that was deactivated meanwhile is not rescheduled (checkable-check.cpp:159-160 returns CheckableInactive):
+	 * not "an active checkable this node is responsible for"; deactivation is final, so active now = active all the time */
+	if (res != Checkable::ProcessingResult::Ok || !checkable->IsActive())
+		return;
 	double next = checkable->GetNextCheck();
 	double iv = (checkable->GetStateType() == StateTypeSoft && checkable->GetLastCheckResult() != nullptr)
 		? checkable->GetRetryInterval() : checkable->GetCheckInterval();
@@ -508,7 +513,8 @@ static int RunScenario(const std::vector<std::string>& w)
 		return 0;
 	}
 	Rng rng(l_Seed);
-	bool wakeup = kv.count("script") && kv["script"] == "wakeup";
+	bool wakeupAsync = kv.count("script") && kv["script"] == "wakeup_async";
+	bool wakeup = wakeupAsync || (kv.count("script") && kv["script"] == "wakeup");
 	if (wakeup) { n = 2; pool = 0; maxc = 1; mut = 0; }
 
 	Configuration::Concurrency = 12; /* thread pool = 24 threads */
@@ -586,10 +592,11 @@ static int RunScenario(const std::vector<std::string>& w)
 		}
 		l_C[0]->fixedExecUs = 80000;
 		l_C[1]->fixedExecUs = 1000;
+		l_C[0]->async = wakeupAsync; /* A's command is a plugin process: its slot is given back by ProcessFinishedHandler */
 	}
 
 	printf("%s %s sched seed=%llu n=%d pool=%d max=%d dur_ms=%d mut=%d bound_ms=%s%s\n", w[0].c_str(), w[1].c_str(),
-		(unsigned long long)l_Seed, n, pool, maxc, durMs, mut, kv["bound_ms"].c_str(), wakeup ? " script=wakeup" : "");
+		(unsigned long long)l_Seed, n, pool, maxc, durMs, mut, kv["bound_ms"].c_str(), wakeupAsync ? " script=wakeup_async" : wakeup ? " script=wakeup" : "");
 	for (int i = 0; i < total; i++)
 		printf("K %d %d %lld %lld %d\n", i, l_C[i]->enabled ? 1 : 0, l_C[i]->checkUs, l_C[i]->retryUs, l_C[i]->async ? 1 : 0);
 
@@ -879,10 +886,10 @@ int main(int argc, char **argv)
 			j.line = buf;
 			jobs.push_back(j);
 		}
-		for (int i = 0; i < (thorough ? 3 : 1); i++) {
+		for (int i = 0; i < (thorough ? 6 : 2); i++) {
 			char buf[256];
-			snprintf(buf, sizeof(buf), "C %d sched seed=%llu n=2 pool=0 max=1 dur_ms=3000 mut=0 bound_ms=2500 script=wakeup", caseNo++,
-				(unsigned long long)(rng.next() >> 16));
+			snprintf(buf, sizeof(buf), "C %d sched seed=%llu n=2 pool=0 max=1 dur_ms=3000 mut=0 bound_ms=2500 script=%s", caseNo++,
+				(unsigned long long)(rng.next() >> 16), i % 2 ? "wakeup_async" : "wakeup");
 			Job j;
 			j.line = buf;
 			jobs.push_back(j);
